@@ -81,6 +81,8 @@ pub struct MockIo {
     pub read_style: u8,
     /// reads answered with "end of stream" so far
     pub eof_reads: u32,
+    /// bytes delivered per read once `rscript` is used up (0 = everything that is left)
+    pub default_chunk: u16,
     // write side
     pub wire: Vec<u8>,
     pub wscript: std::collections::VecDeque<WStep>,
@@ -116,7 +118,7 @@ impl AsyncRead for MockIo {
         if buf.remaining() > (4 << 20) + 8 * this.stream.len() {
             panic!("verif: the reader offers a buffer of {} bytes for a stream of {} bytes: its read buffer grows without bound", buf.remaining(), this.stream.len());
         }
-        let step = this.rscript.pop_front().unwrap_or(RStep::Chunk(u16::MAX));
+        let step = this.rscript.pop_front().unwrap_or(RStep::Chunk(if this.default_chunk == 0 { u16::MAX } else { this.default_chunk }));
         match step {
             RStep::Pending => {
                 this.last_waker = Some(cx.waker().clone());
